@@ -126,15 +126,18 @@ def c18(tier, seed, replay_path=None):
     rng = random.Random(seed)
     runs = []
     # design: small constants, exhaustive
-    runs.append(tlc_admission({"NHosts": 3, "MaxPeers": 3, "MaxPerHost": 2, "MaxSteps": 7 if tier == "quick" else 9, "MaxAdv": 9, "Emit": '"none"'},
+    runs.append(tlc_admission({"NHosts": 3, "MaxPeers": 3, "MaxPerHost": 2, "MaxSteps": 7 if tier == "quick" else 9, "MaxAdv": 9, "Emit": '"none"', "FillFirst": 0},
                               ["TotalAtMostMaxPeers", "PerHostAtMostLimit", "CountersReturnToZero"], ["NoAdmissionWhileBanned", "AdmittedAgainAfterExpiry"]))
     # conformance: the specification at the code's own constants (125 peers, 5 per host), simulated
     d = c.sub("gen")
-    plans = [("few", 2, 36, 40 if tier == "quick" else 600), ("many", 30, 420, 6 if tier == "quick" else 60)]
+    # (tag, hosts, depth, behaviours, fill-first): "full" is steered - connection attempts only until the table has held
+    # all 125 peers, then anything: everything that happens AT the total limit (refusals, leaving peers, returning hosts)
+    plans = [("few", 2, 36, 40 if tier == "quick" else 600, 0), ("many", 30, 300 if tier == "quick" else 420, 4 if tier == "quick" else 60, 0),
+             ("full", 30, 190, 4 if tier == "quick" else 60, 125)]
     aggs, gen = [], {}
-    for tag, nh, depth, num in plans:
+    for tag, nh, depth, num, fill in plans:
         raw = os.path.join(d, "C18%s.out" % tag)
-        r = tlc_admission({"NHosts": nh, "MaxPeers": 125, "MaxPerHost": 5, "MaxSteps": depth, "MaxAdv": 3, "Emit": '"paths"'}, ["EmitInv"], view=None, emit_file=raw,
+        r = tlc_admission({"NHosts": nh, "MaxPeers": 125, "MaxPerHost": 5, "MaxSteps": depth, "MaxAdv": 3, "Emit": '"paths"', "FillFirst": fill}, ["EmitInv"], view=None, emit_file=raw,
                           simulate="num=%d" % num, depth=depth + 1, seed=seed)
         runs.append(r)
         out = os.path.join(d, "C18%s.jsonl" % tag)
